@@ -214,15 +214,30 @@ func ruleDecoderOptionsDefault(rule string) func(*Ctx) {
 					continue
 				}
 				n++
-				extra := len(cs.Call.Args) - 1
+				// options that bound what the decoder accepts (fixed parameters are part of the constructor's contract, and
+				// options that only tune how it works - concurrency - are not a limit)
+				extra := 0
 				if sig.Variadic() {
-					extra = len(cs.Call.Args) - (sig.Params().Len() - 1)
-				} else {
-					extra = 0 // fixed parameters are part of the constructor's contract (e.g. a context)
+					for _, a := range cs.Call.Args[sig.Params().Len()-1:] {
+						limiting := true
+						if oc, ok := ast.Unparen(a).(*ast.CallExpr); ok {
+							if ofn, ok := calleeObj(info, oc).(*types.Func); ok {
+								ln := strings.ToLower(ofn.Name())
+								limiting = false
+								for _, kw := range []string{"max", "limit", "window", "lowmem", "memory", "size"} {
+									if strings.Contains(ln, kw) {
+										limiting = true
+									}
+								}
+							}
+						}
+						if limiting {
+							extra++
+						}
+					}
 				}
-				_ = info
-				c.verdictIf(extra <= 0, rule, f, fmt.Sprintf("%s.%s#%d", fn.Pkg().Name(), fn.Name(), n), cs.Call.Pos(), "the decoder is built from the source alone",
-					"the "+fn.Pkg().Name()+" decoder is built with options: a limit on what it accepts (window, memory) that fits the streams of one compression level refuses those of another ('window size exceeded' for zstandard balanced/smallest)")
+				c.verdictIf(extra <= 0, rule, f, fmt.Sprintf("%s.%s#%d", fn.Pkg().Name(), fn.Name(), n), cs.Call.Pos(), "the decoder is built without options that bound what it accepts",
+					"the "+fn.Pkg().Name()+" decoder is built with limiting options: a limit on what it accepts (window, memory) that fits the streams of one compression level refuses those of another ('window size exceeded' for zstandard balanced/smallest)")
 			}
 		}
 		if n < half(4) {
